@@ -8,7 +8,7 @@ import "fmt"
 // path. Here the families are re-run with the collector set to C17.
 func init() {
 	Checks["C17"] = func(c *Ctx) {
-		c.Cov.Rule = "the forward+proofs, undo, light-client (Update/Undo), partial-forest (Verify(remember), Ingest, Prune, Undo, VerifyPartialProof) and proof-helper (AddProof, GetProofSubset, MapPollard.GetMissingPositions) searches are re-run with every library call wrapped: each hash/leaf/target/proof slice passed in is snapshotted before the call and compared after it; each result returned earlier (proofs, roots, update data, cached hashes) is kept with a private copy and compared at the end of the path; the same block data object is passed to Verify, every instance's Modify, Undo and re-apply; states/transitions as in the host searches; non-trivial = distinct concrete states with a dead leaf or after undo"
+		c.Cov.Rule = "the forward+proofs, undo, light-client (Update/Undo), partial-forest (Verify(remember), Ingest, Prune, Undo, VerifyPartialProof) and proof-helper (AddProof, GetProofSubset, MapPollard.GetMissingPositions) searches, and the medium / aligned-union / very tall structured families (11..1025 leaves), are re-run with every library call wrapped: each hash/leaf/target/proof slice passed in is snapshotted before the call and compared after it; each result returned earlier (proofs, roots, update data, cached hashes) is kept with a private copy and compared at the end of the path; the same block data object is passed to Verify, every instance's Modify, Undo and re-apply; states/transitions as in the host searches; non-trivial = distinct concrete states with a dead leaf or after undo"
 		n1 := pick(c, 5, 7)
 		c.Cov.Bound["forward+proofs Nmax"] = n1
 		BFS(c, &HistFamily{Nmax: n1, Insts: stdInsts([]uint8{0, 63}, []string{"all", "none"}), Or: HistOracle{Roots: true, Proofs: true, Prop: "C02", ProofSets: "small"}, PermLimit: 2, Collect: "C17"}, 0)
@@ -23,6 +23,11 @@ func init() {
 		for _, tr := range []uint8{0, 63} {
 			BFS(c, &PartialFamily{Nmax: n4, TR: tr, UndoBud: 1, FRBud: 1, Junk: true, SetLimit: 2, Prop: "C09", Collect: "C17"}, 0)
 		}
+		// the larger structured families (11..1025 leaves, long proofs): slices that only alias or
+		// get edited in place beyond a certain size
+		tallFamily(c, "C17")
+		lightMedium(c, "C08", true, "C17")
+		partialMedium(c, "C17")
 		runHelpers(c, "C17")
 		c.Cov.Rule = "C17: " + c.Cov.Rule
 	}
